@@ -113,7 +113,75 @@ def retry_budget(n: int, with_ctx: bool, last_permanent: bool) -> bool:
             w.close()
 
 
-PLAN = [("retry_budget", "quick", 280)]
+def retry_under_contention(m: int) -> bool:
+    """
+    pre: 0 <= m <= 7
+    post: _
+    """
+    # The task fails once with a transient error that carries progress.  Another writer bumps the stage's
+    # version (an unrelated context key) after each of the error path's first m reads of the stage
+    # (m symbolic: no contention ... more conflicts than every retry budget of the error path).
+    # Whatever happens - saved and retried, or the conflict escapes and the message will be redelivered -
+    # a retry message is never queued without the progress that belongs to it.
+    with hx.Path("retry_under_contention") as P:
+        w = world2.SWorld(name="retryc")
+        try:
+            wf, st = seed_stage(w, ntasks=1, status=WorkflowStatus.RUNNING)
+            t = st.tasks[0]
+            set_cells(w, "task_executions", t.id, status="RUNNING")
+            w.queue.push(RunTask(execution_id=wf.id, stage_id=st.id, task_id=t.id, task_type="x", created_at=_CREATED))
+            h = _H(w.queue, w.store, handler_config=HandlerConfig())
+            symdb.CLOCK.now = symdb.CLOCK.now + 10_000
+            msg = w.queue.poll_one()
+            stage = w.store.retrieve_stage(st.id)
+            task = stage.tasks[0]
+            bumps = {"n": 0, "limit": 0}
+            for k in range(1, 8):
+                if hx.decide_eq(m, k):
+                    bumps["limit"] = k
+                    break
+            real_retrieve = w.store.retrieve_stage
+
+            def contended_retrieve(stage_id):  # type: ignore[no-untyped-def]
+                got = real_retrieve(stage_id)
+                if bumps["n"] < bumps["limit"]:
+                    bumps["n"] += 1
+                    with hx.native():
+                        r = next(r for r in w.db.tables["stage_executions"] if r["id"] == stage_id)
+                        r["version"] = r["version"] + 1  # the other writer's committed save (its payload does not matter here)
+                return got
+
+            w.store.retrieve_stage = contended_retrieve  # type: ignore[method-assign]
+            escaped = None
+            try:
+                handle_exception(stage, task, None, msg, TransientError("boom", context_update={"progress": 1}), w.store, TransactionHelper(w.store, w.queue),
+                                 lambda *args: timedelta(seconds=2), h.retry_on_concurrency_error)  # type: ignore[arg-type]
+            except Exception as e:  # the conflict escapes: the processor reschedules the same message
+                escaped = type(e).__name__
+            finally:
+                w.store.retrieve_stage = real_retrieve  # type: ignore[method-assign]
+            with hx.native():
+                rows = [r for r in w.table("queue_messages") if r["id"] != msg_row_id(w, msg)]
+                kinds = sorted(r["message_type"] for r in rows)
+                srow = row_of(w, "stage_executions", st.id)
+                ctx = srow["context"]
+                ctx = ctx.obj if isinstance(ctx, symdb.JText) else json.loads(ctx)
+                P.reached((bumps["limit"], escaped, tuple(kinds)))
+                info = {"conflicts": bumps["limit"], "escaped": escaped, "queued": kinds, "durable_progress": ctx.get("progress")}
+            if "RunTask" in kinds and ctx.get("progress") != 1:
+                return P.fail("C14/contention/retry_queued_without_its_progress", info)
+            if escaped is None and "RunTask" not in kinds and "CompleteTask" not in kinds:
+                return P.fail("C14/contention/failure_swallowed_nothing_queued", info)
+            return True
+        finally:
+            w.close()
+
+
+def msg_row_id(w, msg) -> int:
+    return int(msg.message_id)
+
+
+PLAN = [("retry_budget", "quick", 280), ("retry_under_contention", "quick", 200)]
 META = {
     "functions": ["src/stabilize/handlers/run_task/error.py:handle_exception/_handle_transient_retry/_mark_terminal", "src/stabilize/persistence/transaction.py:TransactionHelper.execute_atomic(_critical)",
                   "src/stabilize/persistence/sqlite/transaction.py:AtomicTransaction.push_message", "src/stabilize/queue/sqlite/queue.py:poll_one", "src/stabilize/queue/sqlite/serialization.py:deserialize_message"],
